@@ -40,8 +40,15 @@ def stream_frames(rng, c, hist, offsets, n=None, allow_nolen=True):
     for i in range(n):
         sid = rng.choice([0, 0, 4, 8, 3, 2, 61, 1000])
         data = bytes(rng.randrange(256) for _ in range(rng.choice([1, 2, 17, 100, 300, 1000])))
+        if "again" in offsets and rng.randrange(6) == 0:
+            # the same bytes at the same offset on a fresh stream (the same request issued twice)
+            sid = offsets["fresh"] = offsets.get("fresh", 2000) + 4
+            data = offsets["again"]
+            hist["stream.same_bytes_again"] += 1
         off = offsets.get(sid, 0)
         offsets[sid] = off + len(data)
+        if off == 0 and "again" not in offsets:
+            offsets["again"] = data
         last = (i == n - 1)
         nolen = allow_nolen and last and rng.randrange(4) == 0
         use_off = off if (off > 0 or rng.randrange(2)) else None
